@@ -27,7 +27,8 @@ ASSUMPTIONS = ["git is disabled (C05 checks the selection rule); the cached vers
                "args/options that travel through a real bash are shell-inert tokens; arbitrary strings are checked at the exec boundary",
                "the command string is compared after whitespace splitting (token sequence), not byte for byte"]
 ESSENTIAL = ["no_deps", "group_dep_omitted", "shared_dep_two_dependents", "cached_and_fresh_mixed", "nested_pkg_depth>=2",
-             "bool_and_float_args", "again", "real_bash_layer", "real_python_lib_probe", "options>=2_unsorted", "combine_dep"]
+             "bool_and_float_args", "again", "real_bash_layer", "real_python_lib_probe", "options>=2_unsorted", "combine_dep",
+             "cond_variables_in_conductors_own_environment"]
 TECHNIQUE = "property-based testing (Hypothesis): virtual-kernel exec-boundary observation + real bash/python probes; contract model as oracle"
 LEVEL_TEXT = "Randomised search over graphs, args/options and run histories; every execution's argv/cwd/env is compared with the documented contract."
 LEVEL_NOTE = "Trusted: vf/kernel.py spawn records; vf/probes/probe.sh, probe.py."
@@ -69,6 +70,8 @@ def _case(draw, tier):
                 bad[str(draw(st.sampled_from(exps)))] = {"exit": 9}
         hist.append({"flags": fl, "outcomes": bad})
     case["history"] = hist
+    # Conductor itself started from inside a task of another run (nested `cond run`): COND_* already set
+    case["outer_env"] = draw(st.sampled_from([False, False, False, True]))
     case["real"] = real
     case["flags"] = []
     case["outcomes"] = {}
@@ -136,6 +139,11 @@ def _run(case, root, side):
         cands = [ids[i] for i in sorted(clo) if case["tasks"][i]["kind"] in graph.PROC_KINDS]
         if cands:
             pyprobe = cands[len(cands) // 2]
+    outer = {}
+    if case.get("outer_env"):
+        labels.add("cond_variables_in_conductors_own_environment")
+        outer = {"COND_NAME": "outer", "COND_OUT": os.path.join(root, "cond-out", "outer.task"),
+                 "COND_DEPS": os.path.join(root, "cond-out", "prep.task.7") + ":" + os.path.join(root, "elsewhere"), "COND_SLOT": "5"}
     for r, inv in enumerate(case["history"]):
         c2 = dict(case)
         c2["flags"] = inv["flags"]
@@ -148,10 +156,11 @@ def _run(case, root, side):
                 os.unlink(f)
             env = {"VF_SIDE": side, "VF_PYPROBE": pyprobe.rpartition(":")[2] if pyprobe else "",
                    "PYTHONPATH": os.path.join(os.environ.get("VERIF_REPO", "/repo"), "src")}
+            env.update(outer)
             res = run_cond(root, argv, env=env, timeout=180)
             execs = read_side(side)
         else:
-            res = run_cond(root, argv, kspec=graph.kernel_spec(c2, 1000.0 + 10 * r))
+            res = run_cond(root, argv, kspec=graph.kernel_spec(c2, 1000.0 + 10 * r), env=dict(outer))
             execs = []
             for e in res["events"]:
                 if e["e"] == "spawn":
